@@ -544,10 +544,36 @@ def requantize_rules(chk):
         chk.unknown("C10.R7", f"{mi.rel}:{rq.lineno}", f"requantize: {len(calls)} quantize() calls")
         return
     kw = {k.arg: k.value for k in calls[0].keywords}
+
+    def helper_returns(v):
+        """v = h(args) with h a module-level helper: (helper, the expressions it can return with its parameters bound to the arguments), else None"""
+        if not (isinstance(v, ast.Call) and isinstance(v.func, ast.Name)):
+            return None
+        r = repo.resolve(mi, v.func.id)
+        if r is None or not isinstance(r[1], ast.FunctionDef) or not r[0].rel.startswith("optimum/"):
+            return None
+        env = bind_call(r[1], v)
+        if env is None:
+            return None
+        try:
+            rets = [p_.end[1] for p_ in paths_of(r[1], env) if p_.end[0] == "return" and p_.end[1] is not None]
+        except AnalysisError:
+            return None
+        return r[1], rets
+
     for g, classes in gating.items():
         v = kw.get(g)
         ok = v is not None and not isinstance(v, ast.Constant)
         dep = False
+        hr = helper_returns(v) if ok else None
+        if hr is not None:
+            # computed by a helper from the state_dict it is handed: the state_dict is an argument and the helper iterates over / indexes that parameter
+            h_, rets_ = hr
+            sd_params = [pn for pn, a_ in (bind_call(h_, v) or {}).items() if isinstance(a_, ast.AST) and U(a_) == sd]
+            dep = bool(sd_params) and any((isinstance(n, ast.For) and any(sp in U(n.iter) for sp in sd_params)) or (isinstance(n, ast.Subscript) and U(n.value) in sd_params) for n in ast.walk(h_))
+            for t_ in rets_:
+                chk.require("C10.R7", f"{mi.rel}:{calls[0].lineno}", U(t_) != "None", f"requantize: `{g}` = `{U(v)[:40]}` returns `{U(t_)[:30]}`, never None", "requantize", f"gating kwarg {g} is None on a path",
+                            f"quantize(model, weights=qint8, activations=qint8); with Calibration(): model(x) (the default streamlining turns every activation_qtype into None); freeze; requantize(new_model, state_dict): {sorted(set(classes))} is not recreated -> unexpected keys")
         if ok and isinstance(v, ast.Name):
             # the value must be computed from the state_dict
             for n in ast.walk(rq):
@@ -601,6 +627,8 @@ def requantize_rules(chk):
             for n in ast.walk(rq):
                 if isinstance(n, ast.Assign) and U(n.targets[0]) == mv.id:
                     src = n.value
+        from ..core import inline
+        src = inline(repo, mi, src)  # a single-expression helper (`_recorded_modules(model, state_dict)`) is the expression it returns
         t = U(src)
         ok_mod = f"{model}.named_modules()" in t and f"in {sd}" in t and "weight_qtype" in t
     chk.require("C10.R7", f"{mi.rel}:{calls[0].lineno}", ok_mod, f"requantize quantizes exactly the modules that have a `<name>.weight_qtype` entry in the state_dict (modules={U(mv)[:30] if mv is not None else None})", "requantize", "requantize quantizes every eligible module",
